@@ -233,6 +233,11 @@ class SqliteRecorder(CaseRecorder):
                 self.metadata_connection = self.connection
 
             with self.connection as c:
+                # create all tables and the metadata row in a single transaction (DDL statements
+                # do not open one implicitly), so that a process that dies during initialization
+                # never leaves a database with only some of its tables behind.
+                c.execute("BEGIN")
+
                 # used to keep track of the order of the case records across all case tables
                 c.execute("CREATE TABLE global_iterations(id INTEGER PRIMARY KEY, "
                           "record_type TEXT, rowid INT, source TEXT)")
@@ -264,12 +269,21 @@ class SqliteRecorder(CaseRecorder):
 
                 if self._record_metadata:
                     with self.metadata_connection as m:
+                        if m is not c:
+                            m.execute("BEGIN")
                         m.execute("CREATE TABLE metadata(format_version INT, openmdao_version "
                                   "TEXT, abs2prom BLOB, prom2abs BLOB, abs2meta BLOB, "
                                   "var_settings BLOB,conns BLOB)")
+                        # the variable maps are filled in by startup(); until then they are
+                        # valid empty values so that the file can be read at any time.
+                        empty = zlib.compress(json.dumps({}).encode('ascii'))
+                        empty_io = zlib.compress(
+                            json.dumps({'input': {}, 'output': {}}).encode('ascii'))
                         m.execute("INSERT INTO metadata(format_version, openmdao_version, "
-                                  "abs2prom, prom2abs) VALUES(?,?,?,?)",
-                                  (format_version, openmdao_version, None, None))
+                                  "abs2prom, prom2abs, abs2meta, var_settings, conns) "
+                                  "VALUES(?,?,?,?,?,?,?)",
+                                  (format_version, openmdao_version, empty_io, empty_io,
+                                   empty, empty, empty))
                         m.execute("CREATE TABLE driver_metadata(id TEXT PRIMARY KEY, "
                                   "model_viewer_data TEXT)")
                         m.execute("CREATE TABLE system_metadata(id TEXT PRIMARY KEY, "
